@@ -113,3 +113,16 @@ Proof.
     + intros ->. f_equal. apply sc_zero_iff. reflexivity.
   - intros P c H. rewrite H. reflexivity.
 Qed.
+
+(* after EVERY history of run-time modifications of the components the decision is the one of the components in force *)
+Lemma sum_history_decision (l : list (scomp (T:=R))) mods P c :
+  sum_periodic Rops (sum_history l mods) = Some (P, c) <->
+  (exists k0 r, sum_history l mods = k0 :: r /\ c = sc_wc k0) /\ List.Forall (sc_ok P) (sum_history l mods).
+Proof. apply sum_periodic_iff. Qed.
+Lemma sum_modify_length j pn cn (l : list (scomp (T:=R))) : length (sum_modify j pn cn l) = length l.
+Proof. revert j; induction l as [|k r IH]; intros [|j]; cbn [sum_modify length]; auto. Qed.
+Lemma sum_history_length (l : list (scomp (T:=R))) mods : length (sum_history l mods) = length l.
+Proof.
+  revert l; induction mods as [|[[j pn] cn] r IH]; intros l; cbn [sum_history]; [reflexivity|].
+  rewrite IH. apply sum_modify_length.
+Qed.
